@@ -67,6 +67,18 @@ CHECKS = {
         "note": NOTE_COMMON + " kirin's CallGraphPass cloning and the Fold that follows injection are exercised, not verified.",
         "technique": "Coq proof by fuel induction with an injection map on values (closures) + reflected rule table + differential",
     },
+    "C07": {
+        "text": "Theorems about a store model (methods = opaque body + spec tag + call edges; compiling rewrites the root in place and redirects its "
+                "calls to fresh specialised clones): every existing method other than the root is untouched; everything reachable from a compiled "
+                "root is the root or a fresh clone and carries that root's spec; a later compilation of another root changes nothing an earlier "
+                "compiled root can reach; the store stays well formed, so this holds along every history. Tie: histories (every order of compiling "
+                "2-3 kernels with every assignment of 2 specs, interleaved with executions, re-compilation) replayed on real kernels that share "
+                "4 generated subroutines and the library's move_by_waypoints; after EVERY step the printed IR and behaviour of every shared "
+                "subroutine, the events of every compiled kernel under the plain interpreter (vs the unspecialised kernel under its spec on a "
+                "pristine world) and deep equality + hash of both specs are checked; the compile steps are replayed on the Coq store model.",
+        "note": NOTE_COMMON + " kirin's CallGraphPass/Method.similar perform the cloning and are exercised, not verified; the model clones every method (superset of the call graph); spec immutability is checked on the Python side only.",
+        "technique": "Coq proofs over a store/call-graph model (frame, reachability invariant) + history replay with full observation after each step",
+    },
     "C09": {
         "text": "Theorems about a model of has_quantum_runtime over an abstraction of the compiled IR: if it answers False then NO execution - any "
                 "branch, any trip count, any dynamically resolved callee, call depth bounded exactly like the interpreters' max_depth - performs a "
